@@ -29,7 +29,7 @@ class GenDyn(Gen):
         sp = [["S"], ["P"], ["P", "C"]]
         if self.nested:
             sp.append(["P", "Q"])
-        if rng.random() < 0.3:
+        if rng.random() < 0.45:
             sp.append(["B"])           # a plain base for P
         self.outer_base = self.nested and rng.random() < 0.5
         if self.outer_base:
@@ -66,8 +66,13 @@ class GenDyn(Gen):
         place = {"x": [["P"], ["B"]], "y": [["P"]], "z": [["P", "C"], ["P", "Q"], ["R"]], "w": [["S"]]}
         if ["R"] in sp:
             mir["refs"][("R",)]["s"] = {"v": ["int", rng.choice(INT_VALUES), [], ""], "mode": "auto"}
+        derive_x = ["B"] in mir["bases"][("P",)] and rng.random() < 0.6   # P derives x from B
         for nm in names:
             for p in place[nm]:
+                if nm == "x" and derive_x:
+                    if p == ["B"]:
+                        mir["cells"][tp(p)][nm] = None
+                    continue
                 if p in sp and (p != ["B"] or rng.random() < 0.7):
                     mir["cells"][tp(p)][nm] = None
         for p in sp:
@@ -245,6 +250,8 @@ class GenDyn(Gen):
         cells = [(p, c) for p, c in self.all_cells() if self.rng.random() < 0.9 or p == ["S"]]
         if getattr(self, "outer_base", False) and self.rng.random() < 0.4:
             cells = [(p, c) for p, c in cells if p == ["R"]] or cells
+        elif ["B"] in self.mir["bases"].get(("P",), []) and self.rng.random() < 0.35:
+            cells = [(p, c) for p, c in cells if p == ["B"]] or cells
         if not cells:
             return None
         p, c = self.rng.choice(cells)
